@@ -59,11 +59,25 @@ type c10Model struct {
 	arrivals  int
 	edges     map[string]string // file -> announced predecessor (names unique so far)
 	pushed    map[string]int
+	times     map[string]time.Time // time stamp of every file pushed (ordering key for fifo / lifo)
+}
+
+// before: does x come before f in the configured order (strictly)?
+func (m *c10Model) before(x, f string) bool {
+	switch m.order {
+	case sts.OrderFIFO:
+		return m.times[x].Before(m.times[f])
+	case sts.OrderLIFO:
+		return m.times[x].After(m.times[f])
+	case sts.OrderAlpha:
+		return x < f
+	}
+	return false
 }
 
 func newC10Model(order string) *c10Model {
 	return &c10Model{order: order, pending: map[string][]*c10Pending{}, completed: map[string][]string{},
-		strict: map[string]bool{"g1": true, "g2": true}, edges: map[string]string{}, pushed: map[string]int{}}
+		strict: map[string]bool{"g1": true, "g2": true}, edges: map[string]string{}, pushed: map[string]int{}, times: map[string]time.Time{}}
 }
 
 func groupOf(name string) string { return name[:strings.Index(name, ".")] }
@@ -184,6 +198,7 @@ func c10Run(order string, hist []c10Action) vh.HistResult {
 			d := c10Files[a.File]
 			f := &qFile{name: d.name, size: d.size, time: c10T0.Add(time.Duration(d.tOff) * time.Second)}
 			q.Push([]sts.Hashed{f})
+			m.times[d.name] = f.time
 			if a.Op == "dup" {
 				m.removePending(d.group, d.name)
 				m.strict[d.group] = false
@@ -194,6 +209,7 @@ func c10Run(order string, hist []c10Action) vh.HistResult {
 		case "placeholder":
 			f := &qRecovered{qFile: &qFile{name: a.File, size: 4, time: c10T0.Add(-time.Second)}}
 			q.Push([]sts.Hashed{f})
+			m.times[a.File] = f.time
 			m.completed["g1"] = append(m.completed["g1"], a.File)
 			m.strict["g1"] = false
 		case "resumed", "resumedself", "resumedempty":
@@ -206,6 +222,7 @@ func c10Run(order string, hist []c10Action) vh.HistResult {
 			}
 			f := &qRecovered{qFile: &qFile{name: a.File, size: 5, time: c10T0.Add(time.Second)}, prev: prev, left: [][2]int64{{1, 2}, {3, 4}}}
 			q.Push([]sts.Hashed{f})
+			m.times[a.File] = f.time
 			m.arrivals++
 			m.pending["g1"] = append(m.pending["g1"], &c10Pending{name: a.File, t: f.time, arrival: m.arrivals, left: 2, resumed: true, prev: prev})
 			m.strict["g1"] = false
@@ -261,6 +278,16 @@ func c10Run(order string, hist []c10Action) vh.HistResult {
 				if pred != "" && !contains(m.completed[g], pred) {
 					res.Viol = fmt.Sprintf("step %d: %s announces predecessor %q which was neither emitted completely nor queued as already sent (completed: %v)", i, name, pred, m.completed[g])
 					return res
+				}
+				if pred == "" && !m.everDup {
+					// a file that was emitted completely, or queued as already sent, and that comes
+					// before this one in the configured order is there to be named
+					for _, x := range m.completed[g] {
+						if m.before(x, name) {
+							res.Viol = fmt.Sprintf("step %d: %s announces no predecessor although %s, which precedes it in the configured order, was emitted completely or queued as already sent (completed: %v)", i, name, x, m.completed[g])
+							return res
+						}
+					}
 				}
 				if m.strict[g] {
 					want := ""
